@@ -9,9 +9,14 @@
   every `start ≤ end`).  `text` and `len` follow through `text_eq_cells` / `cells_length` (C09_splice_text,
   C09_splice_len).
 
-  Hypotheses: `start ≤ end` only (the property's range; Python negative offsets are outside the statement).
-  A plain `str` argument is converted by `fmtstr(new_str)`, which for ESC-free text is the single unformatted
-  run `[⟨t, {}⟩]` (C17); C09_splice_str / C09_append_str state that its characters come out unformatted.
+  Hypotheses: `start ≤ end` only (the property's range; Python negative offsets and `end < start` are outside the
+  statement - for `end < start` the code's `bfs.s[end - bfs_start:]` wraps around, the model's Nat subtraction
+  truncates, and the drivers answer `bad-op`).
+  Operands: C09_splice / C09_insert / C09_append are about a FmtStr operand. A plain `str` operand is converted by
+  `fmtstr(new_str)`, which PARSES escape sequences, and the early return tests the RAW `len(new_str)`
+  (Model/SpliceOp.lean `spliceOp`, shared `Operand`). The statement for every operand is `C09_full_statement`; it is
+  refuted by `C09_D27_witness` (open finding D27); `C09_*_operand_partial` carry the hypothesis `Operand.EscFree`
+  (no `ESC [` in a str operand), under which the str's characters come out verbatim and unformatted.
 
   "f itself is unchanged": in this value model `splice` is a function of immutable values, so there is nothing
   to state; the heap-level statement (no `Chunk`/`FmtStr` object reachable from `f` is mutated, memoised views
@@ -68,18 +73,64 @@ theorem C09_append (f new : FmtStr) : cells (append f new) = cells f ++ cells ne
   rw [C09_insert, List.take_of_length_le (by rw [cells_length]; omega),
     List.drop_eq_nil_of_le (by rw [cells_length]; omega), List.append_nil]
 
-/-- A plain `str` argument (`fmtstr(t)` = one unformatted run): its characters are unformatted. -/
-theorem C09_splice_str (f : FmtStr) (t : Text) (start e : Nat) (h : start ≤ e) :
-    cells (splice f [⟨t, {}⟩] start (some e)) = (cells f).take start ++ plainCells t ++ (cells f).drop e := by
-  rw [C09_splice f _ start e h]; simp [plainCells, Chunk.cells]
+/-! ### The operand as the code receives it: a plain `str` or a FmtStr (`Splice.spliceOp`, Model/SpliceOp.lean) -/
 
-theorem C09_insert_str (f : FmtStr) (t : Text) (start : Nat) :
-    cells (splice f [⟨t, {}⟩] start none) = (cells f).take start ++ plainCells t ++ (cells f).drop start := by
-  rw [C09_insert]; simp [plainCells, Chunk.cells]
+/-- The property for every operand, plain `str` included: the characters of a `str` come out verbatim and
+    unformatted (`Operand.cells`). FALSE for the code as it is - `C09_D27_witness`: `splice` converts a `str` with
+    `fmtstr(new_str)`, which parses escape sequences. What holds is `C09_splice_operand_partial` (ESC-free str). -/
+def C09_full_statement : Prop :=
+  ∀ (md : Nat) (f : FmtStr) (new : Operand) (start e : Nat), start ≤ e →
+    ∃ r, spliceOp md f new start (some e) = .ok r ∧
+      cells r = (cells f).take start ++ new.cells ++ (cells f).drop e
 
-theorem C09_append_str (f : FmtStr) (t : Text) :
-    cells (append f [⟨t, {}⟩]) = cells f ++ plainCells t := by
-  rw [C09_append]; simp [plainCells, Chunk.cells]
+/-- `f.splice(new, start, end)` with `new` a FmtStr or a plain `str` that does not contain `ESC [`
+    (`Operand.EscFree`, the complement of finding D27's footprint): the first `start` characters of `f`, the
+    characters of `new` (those of a `str` unformatted), the characters of `f` from `end` on. -/
+theorem C09_splice_operand_partial (md : Nat) (f : FmtStr) (new : Operand) (start e : Nat) (h : start ≤ e)
+    (hesc : new.EscFree) :
+    ∃ r, spliceOp md f new start (some e) = .ok r ∧
+      cells r = (cells f).take start ++ new.cells ++ (cells f).drop e :=
+  ⟨_, spliceOp_noEsc md f new start (some e) (NoEsc_of_EscFree new hesc),
+    by rw [C09_splice f _ start e h, asFmt_cells]⟩
+
+/-- `end` omitted. -/
+theorem C09_insert_operand_partial (md : Nat) (f : FmtStr) (new : Operand) (start : Nat) (hesc : new.EscFree) :
+    ∃ r, spliceOp md f new start none = .ok r ∧
+      cells r = (cells f).take start ++ new.cells ++ (cells f).drop start :=
+  ⟨_, spliceOp_noEsc md f new start none (NoEsc_of_EscFree new hesc), by rw [C09_insert, asFmt_cells]⟩
+
+/-- `f.append(x)`. -/
+theorem C09_append_operand_partial (md : Nat) (f : FmtStr) (new : Operand) (hesc : new.EscFree) :
+    ∃ r, appendOp md f new = .ok r ∧ cells r = cells f ++ new.cells :=
+  ⟨_, spliceOp_noEsc md f new (len f) none (NoEsc_of_EscFree new hesc), by
+    have := C09_append f (asFmt new)
+    rw [append] at this
+    rw [this, asFmt_cells]⟩
+
+/-- Non-vacuity of `Operand.EscFree`: a plain str with a lone ESC and a lone '[' but no `ESC [`. -/
+example : (Operand.str ['x', ESC, ' ', '[', 'y']).EscFree := by
+  show ¬ [ESC, '['] <:+: ['x', ESC, ' ', '[', 'y']; decide
+example : ((spliceOp 4300 [⟨['a', 'b'], { fg := some 1 }⟩] (.str ['x', ESC, ' ', '[', 'y']) 1 (some 2)).toOption.map cells)
+    = some [('a', { fg := some 1 }), ('x', {}), (ESC, {}), (' ', {}), ('[', {}), ('y', {})] := by decide +kernel
+
+/-- D27 at a concrete point: `fmtstr('abc').splice('\x1b[31mX\x1b[39m', 1, 1)` is `a`, a RED `X`, `bc` - four
+    cells, although the str has eleven characters and a plain str's characters should be unformatted. -/
+theorem C09_D27_cells :
+    ((spliceOp 4300 [⟨['a', 'b', 'c'], {}⟩] (.str [ESC, '[', '3', '1', 'm', 'X', ESC, '[', '3', '9', 'm']) 1
+        (some 1)).toOption.map cells)
+      = some [('a', {}), ('X', { fg := some 1 }), ('b', {}), ('c', {})] := by decide +kernel
+
+/-- The model violates the full statement at that point. -/
+theorem C09_D27_witness : ¬ C09_full_statement := by
+  intro h
+  obtain ⟨r, hr, hc⟩ := h 4300 [⟨['a', 'b', 'c'], {}⟩] (.str [ESC, '[', '3', '1', 'm', 'X', ESC, '[', '3', '9', 'm']) 1 1
+    (Nat.le_refl _)
+  have h1 := C09_D27_cells
+  rw [hr] at h1
+  simp only [Except.toOption, Option.map_some, Option.some.injEq] at h1
+  have := congrArg List.length (h1.symm.trans hc)
+  revert this
+  decide
 
 /-- The text of the result is the str splice of the texts. -/
 theorem C09_splice_text (f new : FmtStr) (start e : Nat) (h : start ≤ e) :
